@@ -243,6 +243,12 @@ class Cleaner:
             except KeyError:
                 pass
             else:
+                # Modifier builder converts IDs using int(), follow the same
+                # values here
+                try:
+                    entity_id = int(entity_id)
+                except (TypeError, ValueError, OverflowError):
+                    return
                 entities.add(entity_id)
 
         # Format: {effect ID: ({type IDs}, {group IDs}, {attribute IDs})}
